@@ -15,7 +15,8 @@ RULE = ('cases = (number of workers 1-4) x (stream length 0-8) x predicate patte
         'worker; distinct = (configuration, schedule)'
         '; round 4: the row function mutates a nested value, removes a key and adds a key'
         '; round 7: row functions that raise (OSError, EOFError, ValueError, ...) after they began to change the row'
-        "; round 8: the public step inside a Flow with real worker processes, rows whose keys are in another order than the schema's fields")
+        "; round 8: the public step inside a Flow with real worker processes, rows whose keys are in another order than the schema's fields"
+        '; round 9: the flow run by a child interpreter with an ASCII console and a row function failing with a non-ASCII message; cells larger than a pipe buffer with four workers (watchdog)')
 TRUSTED = ['Coq 8.16.1 kernel + vm_compute', 'harness/p18.py scheduler and fakes (thread-backed; a put/get is atomic and queues are FIFO, as the real ones are per producer)',
            'pickling across processes (a processed row is a copy) and process start-up/join are runtime behaviour outside the model']
 ASSUMES = ['a row function that raises on a row is reported by the worker and the row goes on as that single application left it (round 7: such rows are generated; the model counts the application)',
